@@ -148,10 +148,9 @@ class DynBaseRefDict(RefDict):
                         impl[rootlen+1:]) # +1 to remove preceding dot
                 else:
                     if value.refmode == "auto":
-                        if value.is_defined():
-                            return value
-                        else:
-                            return value.direct_bases[0]
+                        # Out of the base space:
+                        # the binding in the base space is kept
+                        return value
 
                     elif value.refmode == "relative":
                         raise ValueError(
